@@ -683,6 +683,15 @@ Fixpoint distinct_keys {V} (fs : list (text * V)) : bool :=
   | (k, _) :: r => negb (tmem k r) && distinct_keys r
   end.
 
+(** _get_type_info: the base class of a class statement becomes its parent
+    (__extends__) when it has members of its own or is itself derived from a
+    class ("a base class without members of its own still is a base class") *)
+Definition real_base (s : store) (parent : cid) (rp : cls) : bool :=
+  match c_fields rp with
+  | [] => match get_extends s parent with Some _ => true | None => false end
+  | _ :: _ => true
+  end.
+
 Definition subclass (s : store) (parent : cid) (name : text) (fs : list (fname * cid))
   : res (store * cid) :=
   match lookup s parent with
@@ -691,14 +700,19 @@ Definition subclass (s : store) (parent : cid) (name : text) (fs : list (fname *
     match c_kind rp with
     | KComplex =>
       if negb (all_valid s fs && distinct_keys fs) then RBad 7
-      else
-        match c_orig rp, c_fields rp with
-        | Some _, [] => RBad 8
-        | Some _, _ :: _ => RExn AssertionError   (* "You can't inherit from a customized class" *)
-        | None, pf =>
+      else if real_base s parent rp then
+        match c_orig rp with
+        | Some _ => RExn AssertionError   (* "You can't inherit from a customized class" *)
+        | None =>
           ROk (alloc s (mkcls KComplex (Some parent) [] (Some (TStr name)) None
-                              (match pf with [] => None | _ => Some (Some parent) end)
-                              (od_update [] fs)))
+                              (Some (Some parent)) (od_update [] fs)))
+        end
+      else
+        match c_orig rp with
+        | Some _ => RBad 8
+        | None =>
+          ROk (alloc s (mkcls KComplex (Some parent) [] (Some (TStr name)) None
+                              None (od_update [] fs)))
         end
     | _ => RBad 2
     end
